@@ -11,9 +11,9 @@ use std::collections::BTreeSet;
 use txtpp::verif::api::{Directive, DirectiveType};
 use txtpp::Mode;
 
-pub const TOK: [&str; 18] =
-    [" ", "\t", "-", "//", "TXTPP#", "TXTPP", "#", "include", "after", "run", "temp", "tag", "write", "writex", "x", "\u{e9}", "RUN", "txtpp#"];
-pub const CTOK: [&str; 8] = [" ", "\t", "-", "//", "x", "\u{e9}", "TXTPP#", "// "];
+pub const TOK: [&str; 20] =
+    ["\u{3000}", "\u{b}", " ", "\t", "-", "//", "TXTPP#", "TXTPP", "#", "include", "after", "run", "temp", "tag", "write", "writex", "x", "\u{e9}", "RUN", "txtpp#"];
+pub const CTOK: [&str; 9] = ["\u{3000}", " ", "\t", "-", "//", "x", "\u{e9}", "TXTPP#", "// "];
 
 fn std_cmd_or_fail(c: &str, _d: &str, _l: &dyn Fn(&str) -> Option<Vec<u8>>) -> Result<String, String> {
     let o = std::process::Command::new("/bin/sh").arg("-c").arg(c).stdin(std::process::Stdio::null()).output().map_err(|e| e.to_string())?;
